@@ -62,14 +62,18 @@ struct eval_ctx
     bool log = false;
     bool has_pos = false;
     int iter = 0;       // iteration in progress (0-based), maintained by the callback wrapper
+    bool fine = false;  // long double values with bits below double's precision (PLAIN only)
 };
 static thread_local eval_ctx ectx;
 
+template <typename T> static T fine(long long) { return T(); }
+// long double: a part below double's precision, so that the values (and their exact sums) are not representable in double
+template <> long double fine<long double>(long long pos) { return std::ldexp((long double) (pos % 7), -50); }
 template <typename T> static T value_at(long long pos, T x)
 {
     if (pos < 0) return T(1) + std::floor(x * T(3));
     if (pos % 5 == 0) return T();
-    return T(1 + pos % 3);
+    return T(1 + pos % 3) + (ectx.fine ? fine<T>(pos) : T());
 }
 
 // ---- kinds
@@ -89,7 +93,7 @@ template <typename T, typename E, int BITS> struct plain_k
         if (ectx.log) ev("Eval").i("rank", my_rank()).i("pos", pos).emit();
         return value_at<T>(pos, p.point()[0]);
     }
-    // with two distributions (a 1-d one with 3 bins, a 2-d one with 2 x 2 bins): the bins travel through the reduction too
+    // with two distributions (a 1-d one with 3 bins, a 2-d one with 3 x 2 bins): the bins travel through the reduction too
     static T eval_dist(hep::mc_point<T> const& p, hep::projector<T>& pr)
     {
         T v = eval(p);
@@ -101,12 +105,12 @@ template <typename T, typename E, int BITS> struct plain_k
     template <typename CB> static chk serial(chk const& c, std::vector<std::size_t> const& plan, CB cb)
     {
         return hep::plain(hep::make_integrand<T>([](hep::mc_point<T> const& p, hep::projector<T>& pr) { return eval_dist(p, pr); }, d(),
-            hep::make_dist_params<T>(3, T(), T(1), "one"), hep::distribution_parameters<T>(2, 2, T(), T(1), T(), T(1), "two")), plan, c, cb);
+            hep::make_dist_params<T>(3, T(), T(1), "one"), hep::distribution_parameters<T>(3, 2, T(), T(1), T(), T(1), "two")), plan, c, cb);
     }
     template <typename CB> static chk parallel(MPI_Comm comm, chk const& c, std::vector<std::size_t> const& plan, CB cb)
     {
         return hep::mpi_plain(comm, hep::make_integrand<T>([](hep::mc_point<T> const& p, hep::projector<T>& pr) { return eval_dist(p, pr); }, d(),
-            hep::make_dist_params<T>(3, T(), T(1), "one"), hep::distribution_parameters<T>(2, 2, T(), T(1), T(), T(1), "two")), plan, c, cb);
+            hep::make_dist_params<T>(3, T(), T(1), "one"), hep::distribution_parameters<T>(3, 2, T(), T(1), T(), T(1), "two")), plan, c, cb);
     }
 };
 template <typename T, typename E, int BITS> struct vegas_k
@@ -132,13 +136,22 @@ template <typename T, typename E, int BITS> struct vegas_k
         // values depend on the point only through a coarse, rounding-insensitive function
         return pos >= 0 ? value_at<T>(pos, p.point()[0]) : T(1 + (long) (p.bin()[0] % 3));
     }
+    // one distribution with 4 bins filled from the bin index of the point (insensitive to rounding of the grid)
+    static T eval_dist(hep::vegas_point<T> const& p, hep::projector<T>& pr)
+    {
+        T v = eval(p);
+        pr.add(0, (T(p.bin()[0]) + T(0.5)) / T(4), v + T(2));
+        return v;
+    }
     template <typename CB> static chk serial(chk const& c, std::vector<std::size_t> const& plan, CB cb)
     {
-        return hep::vegas(hep::make_integrand<T>([](hep::vegas_point<T> const& p) { return eval(p); }, d()), plan, c, cb);
+        return hep::vegas(hep::make_integrand<T>([](hep::vegas_point<T> const& p, hep::projector<T>& pr) { return eval_dist(p, pr); }, d(),
+            hep::make_dist_params<T>(4, T(), T(1), "bins")), plan, c, cb);
     }
     template <typename CB> static chk parallel(MPI_Comm comm, chk const& c, std::vector<std::size_t> const& plan, CB cb)
     {
-        return hep::mpi_vegas(comm, hep::make_integrand<T>([](hep::vegas_point<T> const& p) { return eval(p); }, d()), plan, c, cb);
+        return hep::mpi_vegas(comm, hep::make_integrand<T>([](hep::vegas_point<T> const& p, hep::projector<T>& pr) { return eval_dist(p, pr); }, d(),
+            hep::make_dist_params<T>(4, T(), T(1), "bins")), plan, c, cb);
     }
 };
 template <typename T, typename E, int BITS> struct mc_k
@@ -161,23 +174,41 @@ template <typename T, typename E, int BITS> struct mc_k
     }
     struct map_t
     {
+        bool single;
         T operator()(std::size_t ch, std::vector<T> const& r, std::vector<T>& co, std::vector<std::size_t> const&, std::vector<T>& de, hep::multi_channel_map) const
         {
             co[0] = r[0];
             // different densities per channel (so that the weights adapt), dyadic so that the first iteration is exact
-            de[0] = T(0.5); de[1] = T(1.5); de[2] = T(1); de[3] = T(1);
+            // (with the single enabled channel 1 the total density is de[1]: dyadic as well)
+            de[0] = T(0.5); de[1] = single ? T(0.5) : T(1.5); de[2] = T(1); de[3] = T(1);
             (void) ch;
             return T(1);
         }
     };
+    // one distribution with 4 bins filled from the selected channel
+    static T eval_dist(hep::multi_channel_point<T> const& p, hep::projector<T>& pr)
+    {
+        T v = eval(p);
+        pr.add(0, (T(p.channel()) + T(0.5)) / T(4), v + T(2));
+        return v;
+    }
     template <typename CB> static chk serial(chk const& c, std::vector<std::size_t> const& plan, CB cb)
     {
-        return hep::multi_channel(hep::make_multi_channel_integrand<T>([](hep::multi_channel_point<T> const& p) { return eval(p); }, 1, map_t(), 1, 4), plan, c, cb);
+        return hep::multi_channel(hep::make_multi_channel_integrand<T>([](hep::multi_channel_point<T> const& p, hep::projector<T>& pr) { return eval_dist(p, pr); },
+            1, map_t{c.channel_weights()[0] == T()}, 1, 4, hep::make_dist_params<T>(4, T(), T(1), "channels")), plan, c, cb);
     }
     template <typename CB> static chk parallel(MPI_Comm comm, chk const& c, std::vector<std::size_t> const& plan, CB cb)
     {
-        return hep::mpi_multi_channel(comm, hep::make_multi_channel_integrand<T>([](hep::multi_channel_point<T> const& p) { return eval(p); }, 1, map_t(), 1, 4), plan, c, cb);
+        return hep::mpi_multi_channel(comm, hep::make_multi_channel_integrand<T>([](hep::multi_channel_point<T> const& p, hep::projector<T>& pr) { return eval_dist(p, pr); },
+            1, map_t{c.channel_weights()[0] == T()}, 1, 4, hep::make_dist_params<T>(4, T(), T(1), "channels")), plan, c, cb);
     }
+};
+// multi channel with a single enabled channel: the channel selection still consumes its random number
+template <typename T, typename E, int BITS> struct mc1_k : mc_k<T, E, BITS>
+{
+    typedef typename mc_k<T, E, BITS>::chk chk;
+    static char const* name() { return "mc1"; }
+    static chk fresh(E const& e) { return hep::make_multi_channel_chkpt<T, E>(std::vector<T>{T(0), T(1), T(0), T(0)}, T(0.01), T(0.5), e); }
 };
 
 template <typename T, typename R> static std::string result_text(R const& r)
@@ -189,6 +220,16 @@ template <typename T, typename R> static std::string result_text(R const& r)
         for (auto const& b : d.results())
             s += " | " + hexfloat(b.sum()) + " " + hexfloat(b.sum_of_squares()) + " " + std::to_string(b.calls()) + " " + std::to_string(b.non_zero_calls()) + " " +
                 std::to_string(b.finite_calls());
+    return s;
+}
+
+// the same without the sums of squares (whose roundings depend on the order of summation when the values have many bits)
+template <typename T, typename R> static std::string sum_text(R const& r)
+{
+    std::string s = hexfloat(r.sum()) + " " + std::to_string(r.calls()) + " " + std::to_string(r.non_zero_calls()) + " " + std::to_string(r.finite_calls());
+    for (auto const& d : r.distributions())
+        for (auto const& b : d.results())
+            s += " | " + hexfloat(b.sum()) + " " + std::to_string(b.calls()) + " " + std::to_string(b.non_zero_calls()) + " " + std::to_string(b.finite_calls());
     return s;
 }
 
@@ -206,7 +247,7 @@ template <typename K, typename T, typename C> struct obs_cb
     {
         auto const& r = c.results().back();
         long rec = K::recorded(r);
-        ev(serial ? "SerialIter" : "Add").i("rank", serial ? -1 : my_rank()).i("n", (long long) c.results().size()).i("rid", ids().id("r:" + result_text<T>(r)))
+        ev(serial ? "SerialIter" : "Add").i("rank", serial ? -1 : my_rank()).i("n", (long long) c.results().size()).i("rid", ids().id("r:" + result_text<T>(r))).i("sid", ids().id("s:" + sum_text<T>(r)))
             .i("sumQ", mono_scaled(r.sum(), 6)).i("sumsqQ", mono_scaled(r.sum_of_squares(), 4)).i("calls", (long long) r.calls())
             .i("nz", (long long) r.non_zero_calls()).i("fin", (long long) r.finite_calls()).i("gen", gen_id(c.generator()))
             .i("recorded", rec).i("derivedPrev", *prev_derived).emit();
@@ -230,7 +271,7 @@ template <int B> static long long start_pos(counter_engine<B> const& e) { return
 
 template <typename K, typename T, typename E>
 static void one_run(char const* ename, E const& engine, bool has_pos, int world, std::vector<std::size_t> const& plan, double target,
-    hep::callback_mode mode = hep::callback_mode::silent, std::size_t pre = 0)
+    hep::callback_mode mode = hep::callback_mode::silent, std::size_t pre = 0, bool fine_values = false, bool big = false)
 {
     typedef typename K::chk C;
     int id = run_counter++;
@@ -249,7 +290,8 @@ static void one_run(char const* ename, E const& engine, bool has_pos, int world,
     }
     ev("MRun").i("run", id).s("kind", K::name()).s("T", type_name<T>::get()).s("engine", ename).i("P", world).a("plan", plan)
         .i("usage", (long long) (K::per_call() * k)).i("hasPos", has_pos ? 1 : 0).i("base", start_pos(engine)).i("posMod", std::string(ename) == "counter32" ? 1048576 : 8388608).i("target", target > 0 ? 1 : 0)
-        .i("exactFirstOnly", std::string(K::name()) == "plain" ? 0 : 1).i("n0", (long long) pre).emit();
+        .i("exactFirstOnly", std::string(K::name()) == "plain" ? 0 : 1).i("n0", (long long) pre).i("sqExact", fine_values ? 0 : 1).i("big", big ? 1 : 0).emit();
+    ectx.fine = fine_values;
     // serial reference
     if (root)
     {
@@ -263,7 +305,7 @@ static void one_run(char const* ename, E const& engine, bool has_pos, int world,
     real_seq = 0;
 #endif
     auto body = [&](MPI_Comm comm, int rank) {
-        ectx.log = true; ectx.has_pos = has_pos && !pre; ectx.iter = (int) pre;
+        ectx.log = !big; ectx.has_pos = has_pos && !pre; ectx.iter = (int) pre; ectx.fine = fine_values;
         long pd = 0;
         C r = K::parallel(comm, start, plan, obs_cb<K, T, C>{hep::callback<C>(hep::callback_mode::silent, "", T(target)),
             hep::mpi_callback<C>(mode, "", T(target)), false, &pd});
@@ -307,6 +349,18 @@ template <typename T> static void family(rng& g, std::vector<int> const& worlds,
         one_run<mc_k<T, counter_engine<64>, 64>, T>("counter64", counter_engine<64>(s), true, w, make_plan(g, w), 0.0);
         one_run<plain_k<T, counter_engine<32>, 32>, T>("counter32", counter_engine<32>(s), true, w, make_plan(g, w), 0.0);
         one_run<mc_k<T, counter_engine<32>, 32>, T>("counter32", counter_engine<32>(s), true, w, make_plan(g, w), 0.0);
+        one_run<mc1_k<T, counter_engine<64>, 64>, T>("counter64", counter_engine<64>(s), true, w, make_plan(g, w), 0.0);
+        if (w >= 2)
+        {
+            // an iteration in which some ranks have no calls at all (and one in which a rank has a single call with value zero), followed
+            // by another one: every rank must go on with the refinement of the *reduced* result
+            std::vector<std::size_t> forced{(std::size_t) w + 1, (std::size_t) w - 1, 2 * (std::size_t) w + 1};
+            one_run<mc_k<T, counter_engine<64>, 64>, T>("counter64", counter_engine<64>(s), true, w, forced, 0.0);
+            one_run<vegas_k<T, counter_engine<64>, 64>, T>("counter64", counter_engine<64>(s), true, w, forced, 0.0);
+        }
+        // values with more bits than a double holds (long double only): the reduction must be carried out in T
+        if (sizeof(T) > sizeof(double))
+            one_run<plain_k<T, counter_engine<64>, 64>, T>("counter64", counter_engine<64>(s), true, w, make_plan(g, w), 0.0, hep::callback_mode::silent, 0, true);
         // continued from a checkpoint with results (in memory): the first resumed iteration must use the refinement of the last result
         one_run<vegas_k<T, std::mt19937, 0>, T>("mt19937", std::mt19937(s), false, w, make_plan(g, w), 0.0, hep::callback_mode::silent, 1 + g.below(2));
         one_run<mc_k<T, std::mt19937, 0>, T>("mt19937", std::mt19937(s), false, w, make_plan(g, w), 0.0, hep::callback_mode::silent, 1);
@@ -351,6 +405,17 @@ int main(int argc, char** argv)
     struct nullbuf : std::streambuf { int overflow(int c) override { return c; } } nb;
     std::streambuf* oldbuf = std::cout.rdbuf(&nb);
     (void) oldbuf;
+    if (std::atoi(argv[3]) == 2)
+    {
+        // only the very long run: more non-zero evaluations than a float counts exactly (2^24)
+        one_run<plain_k<float, counter_engine<64>, 64>, float>("counter64", counter_engine<64>(7), false, worlds.size() > 1 ? 3 : worlds[0],
+            std::vector<std::size_t>{(std::size_t) (1u << 24) + 5 + 2 * g.below(10), 3} /* odd: not a float */, 0.0, hep::callback_mode::silent, 0, false, true);
+        out().close();
+#ifdef VT_REAL_MPI
+        MPI_Finalize();
+#endif
+        return 0;
+    }
     family<double>(g, worlds, thorough);
     family<float>(g, thorough ? worlds : std::vector<int>{2, 5}, thorough);
     family<long double>(g, thorough ? worlds : std::vector<int>{3}, thorough);
